@@ -14,6 +14,7 @@ mod vp8parse;
 mod vp8predict;
 mod vp8frame;
 mod readimage;
+mod vp8recon;
 mod c13;
 mod c10;
 mod c11;
@@ -59,6 +60,7 @@ fn main() {
         "vp8predict" => vp8predict::run(tier, seed, out, extra),
         "vp8frame" => vp8frame::run(tier, seed, out, extra),
         "readimage" => readimage::run(tier, seed, out, extra),
+        "vp8recon" => vp8recon::run(tier, seed, out, extra),
         "c13" => c13::run(tier, seed, out, extra),
         "c10" => c10::run(tier, seed, out, extra),
         "c11" => c11::run(tier, seed, out, extra),
